@@ -88,7 +88,7 @@ def run_unit(u, tier='quick', mutant=None, tag=''):
         return out
     res = V.run_verus(u.name, asm.text, tag=tag)
     out.res = res
-    vac_ranges = {v['probe']: v['out_lines'] for v in asm.info['vac']}
+    vac_ranges = {'%s@%d' % (v['probe'], v['out_lines'][0]): v['out_lines'] for v in asm.info['vac']}
     vac_failed = set()
     for d in res.diags:
         lines = [s['line_start'] for s in d['spans']]
@@ -101,7 +101,7 @@ def run_unit(u, tier='quick', mutant=None, tag=''):
             continue
         out.failed.append(describe_diag(asm, d))
     for nm in vac_ranges:
-        if nm not in vac_failed:
+        if nm not in vac_failed and not res.tool_errors:
             out.reasons.append('vacuity probe %s was NOT rejected: the precondition of that function is contradictory' % nm)
     out.vac_ok = len(vac_failed)
     if res.tool_errors:
